@@ -3996,7 +3996,8 @@ def _fix_duplicate_regular_imports(source: str) -> str:
             )
             name = alias.name
 
-            import_nodes[asname].append(node)
+            if node not in import_nodes[asname]:  # import a, a
+                import_nodes[asname].append(node)
             import_aliases[name].add(asname)
 
     replacements = {}
